@@ -180,8 +180,12 @@ Returns:
   - true if the fields are equal, false otherwise.
 */
 func (ego *list) isEqual(another any) bool {
-	list, ok := another.(*list)
-	if !ok || ego.Ego().Count() != list.Count() {
+	other, ok := another.(List)
+	if !ok {
+		return false
+	}
+	list := other.base()
+	if ego.Ego().Count() != list.Count() {
 		return false
 	}
 	for i := range ego.val {
@@ -190,6 +194,10 @@ func (ego *list) isEqual(another any) bool {
 		}
 	}
 	return true
+}
+
+func (ego *list) base() *list {
+	return ego
 }
 
 func (ego *list) Init(ptr List) {
